@@ -440,6 +440,15 @@ def check_cmp_guards(ctx, rep):
         gs = G.guards_at(eb, blk)
         nullguard = any(g.op == "False" and g.a.kind == "call" and g.a.v.endswith("Value::is_null") for g in gs) or any(g.op == "True" and g.a.kind == "call" and g.a.v.endswith("Value::has_value") for g in gs)
         key = "cmp-guard:null:%s" % op
+        if not nullguard:
+            # the test may not dominate the comparator (its outcome travels in an Option built by a helper): every path to the
+            # comparator carries `resolved value is not Null`
+            from rules import pathcond as PC
+
+            paths = [p for p in PC.enumerate_paths(eb, lambda x: x == blk) if len({a for a, _t in p[1]}) == len(p[1])]
+            def not_null(p):
+                return any((re.match(r"is_null\(", a) and tv is False) or (re.match(r"has_value\(", a) and tv is True) for a, tv in p[1])
+            nullguard = bool(paths) and all(not_null(p) for p in paths)
         if nullguard:
             rep.ok("R-CMPGUARD", key, eb.where(blk), "comparator runs only after the resolved value was found not to be Null")
         else:
@@ -574,7 +583,23 @@ def check_reductions(ctx, rep):
         preds = [c.split("::")[-1] for c in calls if c.startswith("haystack::val::value::Value::") and c.split("::")[-1] in ("has_value", "is_null")]
         nots = [1 for blk in b.blocks for s in blk["stmts"] if s["k"] == "assign" and s["rv"]["k"] == "unop" and s["rv"]["op"] == "Not"]
         res = any(c.endswith("EvalContext::resolve") for c in calls)
-        if preds == [pred] and not nots and res:
+        good = preds == [pred] and not nots and res
+        if not good and res:
+            # decided on the paths instead of the spelling: true exactly when the resolved value is (not) Null, whichever of the
+            # two predicates is asked and however the answer is carried (an Option built by a helper, a negation)
+            from rules import pathcond as PC
+
+            rets = {bi for bi in range(b.n) if b.term(bi)["k"] == "return"}
+            pos, neg = PC.bool_outcomes(PC.enumerate_paths(b, lambda x: x in rets))
+            atoms = PC.atoms_of(pos + neg)
+            A = [a for a in atoms if re.match(r"(is_null|has_value)\(", a) and "resolve(" in a]
+            if len(A) == 1:
+                null_means = A[0].startswith("is_null(")
+                want_true = (lambda asg: bool(asg.get(A[0])) != null_means) if pred == "has_value" else (lambda asg: bool(asg.get(A[0])) == null_means)
+                o1, _c1 = PC.entails(pos, want_true, atoms)
+                o2, _c2 = PC.entails(neg, lambda asg: not want_true(asg), atoms)
+                good = o1 and o2 and bool(pos) and bool(neg)
+        if good:
             rep.ok("T-REDUCE", key, b.where(), "%s of the resolved path" % pred)
         else:
             rep.bad("T-REDUCE", "T-REDUCE:" + key, b.where(), "expected %s(resolve(path)), found predicates %s%s" % (pred, preds, " negated" if nots else ""))
